@@ -34,8 +34,19 @@ outp = os.path.join(V, opt("--out", "calib/C05.json"))
 binary = Job("c05_cvbr", "flt-opt", "random", refs=("ref-flt",)).binary()
 tmp = tempfile.mkdtemp(prefix="c05calib.")
 per_seed = {}
+reuse = opt("--reuse", "")
+if reuse:
+    tmp = reuse
 for s in seeds:
     logf = os.path.join(tmp, "seed%d.jsonl" % s)
+    if reuse:
+        per_seed[s] = []
+        for line in open(logf):
+            try:
+                per_seed[s].append(json.loads(line))
+            except ValueError:
+                pass
+        continue
     env = env_for()
     env["C05_CALIB_OUT"] = logf
     procs = [subprocess.Popen([binary, "--random", "--seed", str(s), "--worker", str(w), "--cases", str(cases), "--samples", "0",
